@@ -261,7 +261,21 @@ void InterfacePayload::setData(const uint8_t* streamIds,
 bool InterfacePayload::isValidPayload(const uint8_t* data, const size_t size)
 {
     auto header = reinterpret_cast<const Header*>(data);
-    return (size >= sizeof(Header) && header->getInterfaceStatus() <= InterfaceStatus::disabled);
+    if (size < minPayloadSize || header->getInterfaceStatus() > InterfaceStatus::disabled)
+        return false;
+
+    // The stream IDs (padded to an even count) and the vendor data have to fit into the payload
+    size_t offset = sizeof(Header);
+    size_t streamIdsCount = swapEndian(*reinterpret_cast<const uint16_t*>(data + offset));
+    streamIdsCount += streamIdsCount % 2;
+    offset += sizeof(uint16_t);
+    if (size - offset < streamIdsCount + sizeof(uint16_t))
+        return false;
+
+    offset += streamIdsCount;
+    const size_t vendorDataLength = swapEndian(*reinterpret_cast<const uint16_t*>(data + offset));
+    offset += sizeof(uint16_t);
+    return vendorDataLength <= size - offset;
 }
 
 const InterfacePayload::Header* InterfacePayload::getHeader() const
